@@ -106,14 +106,13 @@ impl<'c, W, R, T> RootEvaluationScope<'c, W, R, T> {
                         let unmet_freq: Vec<_> = forward_requirements
                             .iter()
                             .filter_map(|freq| {
-                                let fref = self.compilation_scope.scope.forward_ref(freq);
-                                if fref.fulfilled {
-                                    None
-                                } else {
-                                    let interner = self.compilation_scope.interner.borrow();
-                                    let name = interner.resolve(fref.name).unwrap();
-                                    Some(name.to_string())
-                                }
+                                // as the compile-time gate: a fulfilled forward requirement stands for
+                                // the requirements of its implementation
+                                let missing = self.compilation_scope.scope.unfulfilled_behind(freq)?;
+                                let fref = self.compilation_scope.scope.forward_ref(&missing);
+                                let interner = self.compilation_scope.interner.borrow();
+                                let name = interner.resolve(fref.name).unwrap();
+                                Some(name.to_string())
                             })
                             .collect();
                         if !unmet_freq.is_empty() {
